@@ -4,9 +4,11 @@ import Agd.Driver.Util
 Line-protocol driver for the C04 model.
 
 ```
-cfg <s|e|o> <minTTL ns> <override>            reset; s = simple cache, e = ECS cache, o = simple cache before the fix
+cfg <s|e|o|k> <minTTL ns> <override>          reset; s = simple cache, e = ECS cache, o = simple cache before the TTL fix,
+                                              k = simple cache before the key fix (entries keyed by the response)
 q <now> <REQ> <scope> <fake> <MSG>            one request at time `now`; MSG = what the next handler answers,
-                                              scope = ECS scope of that answer, fake = name in FakeECSFQDNs
+                                              scope = ECS scope of that answer (simple cache: the class in the answer's
+                                              question section, used by `k` only), fake = name in FakeECSFQDNs
 fwd <REQ>                                     ECS cache: what is forwarded on a miss: DO bit, family, subnet id
 evict <REQ>                                   capacity eviction of the entries the request could hit
 low <MSG>                                     findLowestTTL
@@ -74,6 +76,7 @@ def step (s : S) : List String → S × String
       match parseMsg ms with
       | some a =>
         let o := if s.kind == "e" then Ecs.step s.cfg s.store (nat! now) r a (Ecs.respDep (nat! scope) (bool! fake))
+                 else if s.kind == "k" then Simple.stepOldKey s.cfg s.store (nat! now) r a (nat! scope)
                  else Simple.stepWith (ttlFn s.kind) s.cfg s.store (nat! now) r a
         ({ s with store := o.store }, showOut o)
       | none => (s, "bad-op")
